@@ -276,3 +276,12 @@ def hmc_finite_difference_inside_bounds(h, d):
             k += 1
             h.ge(f"finite_diff evaluation #{k} >= lower - tol", e[1], lo - 1e-12 * scale)
             h.le(f"finite_diff evaluation #{k} <= upper + tol", e[1], up + 1e-12 * scale)
+
+
+@unit("C04", quick=[dict(d=1, n=2, mass="scalar"), dict(d=2, n=1, mass="vector")], families=1, floor_fork=(-1, 1), cost=4)
+def hmc_momentum_is_reversed_with_every_fold_of_the_trajectory(h, d, n, mass):
+    """'for Hamiltonian trajectories the momentum component is reversed exactly when its coordinate was folded an odd
+    number of times', at every step of the trajectory including the last one: a missing or misplaced reversal shows as a
+    trajectory that does not retrace itself.  Same execution of the real bounded_leapfrog as C07's reversibility unit"""
+    from harness import c07
+    c07.leapfrog_is_reversible(h, d, n, mass, True)
